@@ -141,7 +141,8 @@ func (c *Config) Proxy(closing chan bool, cc io.ReadWriter, url *url.URL) error 
 // forwardPreface forwards the connection preface from the client to the server.
 func forwardPreface(server io.Writer, client io.Reader) error {
 	preface := make([]byte, len(connectionPreface))
-	if _, err := client.Read(preface); err != nil {
+	// The preface may arrive in several pieces; a single Read is not guaranteed to return all of it.
+	if _, err := io.ReadFull(client, preface); err != nil {
 		return fmt.Errorf("reading preface: %w", err)
 	}
 	if !bytes.Equal(preface, connectionPreface) {
